@@ -17,6 +17,12 @@
 //!     (retryable, never connected).  A script containing a 10 runs the whole scenario over wss:// (the
 //!     fake server speaks TLS with a self-signed certificate, the client skips verification): the
 //!     handshake timeout bounds the whole attempt, TCP connect and TLS handshake included
+//!  11 upgrade (by hand), then stay silent: never answer a Ping, until the client leaves (keepalive timeout:
+//!     retryable, was connected).  A script containing an 11 runs the client with keepalive 150 ms / timeout 300 ms
+//!  12 reset the TCP connection right after accepting it (ECONNRESET / EPIPE during the handshake: retryable)
+//!  13 answer the TLS ClientHello with garbage (TLS error: fatal, never connected; wss:// scenario like 10)
+//!  14 answer 101 with a wrong Sec-WebSocket-Accept (protocol error in the handshake: fatal, never connected)
+//!   4 with hold != 0: the status answered is `hold` instead of 404 (401, 403, 500, 503, 301, 200: all fatal)
 //!   8 refuse: the listener is closed while the client makes this attempt (ConnectionRefused:
 //!     retryable, never connected); `hold` of the first entry of a run of 8s = how long the listener
 //!     stays closed, counted from the previous observed failure (or from the client's start); the
@@ -86,6 +92,47 @@ async fn upgrade(tcp: Io) -> Option<tokio_tungstenite::WebSocketStream<Io>> {
         Ok(resp)
     };
     tokio::time::timeout(Duration::from_secs(5), tokio_tungstenite::accept_hdr_async(tcp, cb)).await.ok()?.ok()
+}
+
+/// answer the upgrade request by hand (so that the harness keeps the raw connection): `good` = correct accept key
+async fn manual_upgrade(tcp: &mut Io, good: bool) -> bool {
+    use base64::Engine;
+    use sha1::{Digest, Sha1};
+    let mut buf = Vec::new();
+    let mut b = [0u8; 512];
+    let got = tokio::time::timeout(Duration::from_secs(5), async {
+        loop {
+            match tcp.read(&mut b).await {
+                Ok(0) | Err(_) => return false,
+                Ok(n) => {
+                    buf.extend_from_slice(&b[..n]);
+                    if buf.windows(4).any(|w| w == b"\r\n\r\n") {
+                        return true;
+                    }
+                }
+            }
+        }
+    })
+    .await
+    .unwrap_or(false);
+    if !got {
+        return false;
+    }
+    let head = String::from_utf8_lossy(&buf).to_string();
+    let key = head.lines().find_map(|l| {
+        let (k, v) = l.split_once(':')?;
+        k.trim().eq_ignore_ascii_case("sec-websocket-key").then(|| v.trim().to_string())
+    });
+    let Some(key) = key else { return false };
+    let mut h = Sha1::new();
+    h.update(key.as_bytes());
+    h.update(if good { &b"258EAFA5-E914-47DA-95CA-C5AB0DC85B11"[..] } else { &b"258EAFA5-E914-47DA-95CA-C5AB0DC85B12"[..] });
+    let accept = base64::engine::general_purpose::STANDARD.encode(h.finalize());
+    let resp = format!(
+        "HTTP/1.1 101 Switching Protocols\r\nconnection: upgrade\r\nupgrade: websocket\r\nsec-websocket-accept: {accept}\r\nsec-websocket-protocol: {}\r\n\r\n",
+        penguin_mux::PROTOCOL_VERSION
+    );
+    tcp.write_all(resp.as_bytes()).await.is_ok()
 }
 
 async fn free_port() -> u16 {
@@ -170,7 +217,8 @@ async fn scenario(c: Vec<u64>) -> Vec<u64> {
     let mut listener = Some(TcpListener::bind("127.0.0.1:0").await.unwrap());
     let sport = listener.as_ref().unwrap().local_addr().unwrap().port();
     let lport = [free_port().await, free_port().await, free_port().await];
-    let tls = script.iter().any(|e| e.0 == 10);
+    let tls = script.iter().any(|e| matches!(e.0, 10 | 13));
+    let ka = script.iter().any(|e| e.0 == 11);
     let args: &'static ClientArgs = Box::leak(Box::new(ClientArgs {
         server: ServerUrl::from_str(&format!("{}://127.0.0.1:{sport}/ws", if tls { "wss" } else { "ws" })).unwrap(),
         tls_skip_verify: tls,
@@ -179,7 +227,8 @@ async fn scenario(c: Vec<u64>) -> Vec<u64> {
             Remote::from_str(&format!("127.0.0.1:{}:socks", lport[1])).unwrap(),
             Remote::from_str(&format!("127.0.0.1:{}:http", lport[2])).unwrap(),
         ],
-        keepalive: penguin_mux::timing::OptionalDuration::NONE,
+        keepalive: if ka { Duration::from_millis(150).into() } else { penguin_mux::timing::OptionalDuration::NONE },
+        keepalive_timeout: if ka { Duration::from_millis(300).into() } else { penguin_mux::timing::OptionalDuration::NONE },
         max_retry_count: max_count,
         max_retry_interval: max_ms,
         handshake_timeout: Duration::from_millis(hs_ms).into(),
@@ -269,7 +318,17 @@ async fn scenario(c: Vec<u64>) -> Vec<u64> {
         idx += 1;
         attempts += 1;
         let hold = Duration::from_millis(hold);
-        let mut tcp: Io = if tls && kind != 10 {
+        if kind == 12 {
+            #[allow(deprecated)]
+            let _ = tcp.set_linger(Some(Duration::ZERO));
+            drop(tcp);
+            last_fail = Some(Instant::now());
+            for _ in 0..opens {
+                locals.push(open_local(lport, 0x1900_0000 + locals.len() as u64));
+            }
+            continue;
+        }
+        let mut tcp: Io = if tls && !matches!(kind, 10 | 13) {
             match tokio::time::timeout(Duration::from_secs(5), tls_acceptor().accept(tcp)).await {
                 Ok(Ok(s)) => Box::new(s),
                 _ => {
@@ -286,9 +345,40 @@ async fn scenario(c: Vec<u64>) -> Vec<u64> {
                 read_request(&mut tcp).await;
                 drop(tcp);
             }
+            13 => {
+                let mut b = [0u8; 512];
+                let _ = tokio::time::timeout(Duration::from_secs(5), tcp.read(&mut b)).await;
+                let _ = tcp.write_all(b"HTTP/1.1 400 Bad Request\r\ncontent-length: 0\r\n\r\n").await;
+                let _ = tcp.shutdown().await;
+                drop(tcp);
+            }
+            14 => {
+                manual_upgrade(&mut tcp, false).await;
+                let mut b = [0u8; 512];
+                let _ = tokio::time::timeout(Duration::from_millis(500), async { while let Ok(n) = tcp.read(&mut b).await { if n == 0 { break; } } }).await;
+            }
+            11 => {
+                if manual_upgrade(&mut tcp, true).await {
+                    // read (and ignore) whatever the client sends, answer nothing, until it leaves
+                    let mut b = [0u8; 512];
+                    let left = tokio::time::timeout(Duration::from_millis(300 + 150 + 3000), async {
+                        while let Ok(n) = tcp.read(&mut b).await {
+                            if n == 0 { break; }
+                        }
+                    })
+                    .await
+                    .is_ok();
+                    if !left {
+                        // no keepalive timeout long after it was due: the client sits on a dead connection
+                        final_code = 8;
+                        break;
+                    }
+                }
+            }
             4 => {
                 read_request(&mut tcp).await;
-                let _ = tcp.write_all(b"HTTP/1.1 404 Not Found\r\ncontent-length: 0\r\n\r\n").await;
+                let status = if hold.is_zero() { 404 } else { hold.as_millis() as u64 };
+                let _ = tcp.write_all(format!("HTTP/1.1 {status} Status\r\ncontent-length: 0\r\n\r\n").as_bytes()).await;
                 let _ = tcp.shutdown().await;
                 drop(tcp);
             }
@@ -370,7 +460,7 @@ async fn scenario(c: Vec<u64>) -> Vec<u64> {
             }
         }
         last_fail = Some(Instant::now());
-        if matches!(kind, 4 | 6) && opens > 0 {
+        if matches!(kind, 4 | 6 | 13 | 14) && opens > 0 {
             // the client is ending: give it the time to do so before new local connections arrive
             // (a request arriving in the very poll in which the fatal error is noticed is scenario 9's subject)
             tokio::time::sleep(Duration::from_millis(100)).await;
@@ -427,7 +517,7 @@ fn place_refusals(c: &mut [u64]) {
             break;
         }
         if kind != 8 {
-            if matches!(kind, 2 | 3 | 6 | 7 | 9) {
+            if matches!(kind, 2 | 3 | 6 | 7 | 9 | 11) {
                 j = 0;
             }
             j += 1;
@@ -470,6 +560,14 @@ pub fn generate(a: &Args, out: &mut Out) {
         vec![1000, 3, 300, 2000, 10, 0, 0, 1, 0, 0, 10, 0, 1, 3, 60, 0],
         // local connections opened while down are served by the next good connection
         vec![400, 0, 400, 2000, 1, 0, 2, 3, 80, 1, 1, 0, 1],
+        // keepalive timeout on a silent server; reset during the handshake; other fatal answers
+        vec![1000, 0, 400, 2000, 1, 0, 0, 11, 0, 1, 1, 0, 0],
+        vec![1000, 2, 400, 2000, 12, 0, 0, 12, 0, 1, 12, 0, 0, 12, 0, 0],
+        vec![1000, 0, 400, 2000, 1, 0, 0, 13, 0, 0],
+        vec![1000, 0, 400, 2000, 1, 0, 0, 14, 0, 0],
+        vec![1000, 0, 400, 2000, 4, 503, 0],
+        vec![1000, 0, 400, 2000, 1, 0, 0, 4, 401, 0],
+        vec![1000, 0, 400, 2000, 4, 200, 0],
         // a burst of local connections (more than the request queue holds) through all four TCP entry points while down
         vec![400, 0, 400, 2000, 1, 0, 90, 1, 0, 0],
         // stream request times out, then served
@@ -493,8 +591,8 @@ pub fn generate(a: &Args, out: &mut Out) {
         let n = 1 + rng.below(5);
         let mut c = vec![max_ms, max_count, hs, ch];
         for _ in 0..n {
-            let kind = rng.pick(&[1u64, 1, 1, 2, 2, 3, 3, 5, 7, 4, 6, 0, 8, 8, 9, 10]);
-            let hold = rng.pick(&[0u64, 30, 120]);
+            let kind = rng.pick(&[1u64, 1, 1, 2, 2, 3, 3, 5, 7, 4, 6, 0, 8, 8, 9, 10, 11, 12, 12, 13, 14, 4]);
+            let hold = if kind == 4 { rng.pick(&[0u64, 401, 403, 500, 502, 503, 301, 200, 426]) } else { rng.pick(&[0u64, 30, 120]) };
             let opens = if rng.chance(1, 3) { 1 + rng.below(2) } else { 0 };
             c.extend([kind, if kind == 7 { 3000 } else if kind == 9 { 120 } else { hold }, if kind == 9 { opens.max(1) } else if kind == 8 { 0 } else { opens }]);
         }
